@@ -360,7 +360,7 @@ func c16Scenario(tree int, dotu bool, maxK int, ancestors bool) Scenario {
 	}}
 }
 
-// c16DotDot: '..' is resolved by the host, element by element: after a symbolic link to
+// c16DotDot: '..' and '.' are resolved by the host, element by element: after a symbolic link to
 // a directory it leads to the parent of the link's target, not back to where the link
 // is. Every element list over {link-to-sub, link-to-dir, dir, sub, .., inner, deep} of
 // length <= 4 that the host resolves, as one Twalk to a new fid and in place: the qids
@@ -379,7 +379,7 @@ func c16DotDot(dotu bool) Scenario {
 				res.Findings = append(res.Findings, Finding{Sig: "C16/" + sig, Msg: msg})
 			}
 		}
-		alpha := []string{"link-to-sub", "link-to-dir", "dir", "sub", "..", "inner", "deep"}
+		alpha := []string{"link-to-sub", "link-to-dir", "dir", "sub", "..", ".", "inner", "deep"}
 		var lists [][]string
 		var gen func(cur []string)
 		gen = func(cur []string) {
